@@ -350,6 +350,55 @@ theorem buildB2_cmpNumL (op : String) (hop : op ∈ cmpOps) (lex : String) (p : 
   exact predOK_cmpNumL d cfg op hop ro.q p lex c
     (operand_pathOK2 (F := F) wf cfg hns hinj regexOk limit p hp ih lo.st ro hro c hc).2
 
+include hns in
+/-- `P op Q`, all six operators: both operands are built with empty flags (as `processOperator`
+does), the second one from the builder state the first one leaves; each agrees with the oracle as a
+node set, which is all the existential comparison reads -/
+theorem buildB2_cmpPath (op : String) (hop : op ∈ cmpOps) (p q : Ast)
+    (hp : Frag2 true p) (hq : Frag2 true q)
+    (ihp : BuildP2 (F := F) d cfg regexOk limit p) (ihq : BuildP2 (F := F) d cfg regexOk limit q) :
+    BuildB2 (F := F) d cfg regexOk limit (.oper op p q) := by
+  intro fl st o h
+  obtain ⟨st1, lo, ro, hlo, hro, hq', hpr⟩ :=
+    build_cmp_inv regexOk limit true false op hop p q fl st o h
+  have hlp : PropsOK lo.props := (ihp {} st1 lo hlo).1
+  have hrp : PropsOK ro.props := (ihq {} lo.st ro hro).1
+  refine ⟨by rw [hpr]; exact propsOK_or _ _ hlp hrp, fun c hc => ?_⟩
+  rw [hq']
+  exact predOK_cmpPath d cfg op hop lo.q ro.q p q c
+    (operand_pathOK2 (F := F) wf cfg hns hinj regexOk limit p hp ihp st1 lo hlo c hc).2
+    (operand_pathOK2 (F := F) wf cfg hns hinj regexOk limit q hq ihq lo.st ro hro c hc).2
+
+include hns in
+/-- `P op 'lit'`, all six operators -/
+theorem buildB2_cmpStrR (op : String) (hop : op ∈ cmpOps) (p : Ast) (s : String)
+    (hp : Frag2 true p) (ih : BuildP2 (F := F) d cfg regexOk limit p) :
+    BuildB2 (F := F) d cfg regexOk limit (.oper op p (.str s)) := by
+  intro fl st o h
+  obtain ⟨st1, lo, ro, hlo, hro, hq, hpr⟩ :=
+    build_cmp_inv regexOk limit true false op hop p (.str s) fl st o h
+  obtain ⟨hrq, hrp⟩ := build_str_inv regexOk limit true false s _ _ ro hro
+  have hlp : PropsOK lo.props := (ih {} st1 lo hlo).1
+  refine ⟨by rw [hpr, hrp]; exact propsOK_or _ _ hlp propsOK_empty, fun c hc => ?_⟩
+  rw [hq, hrq]
+  exact predOK_cmpStrR d cfg op hop lo.q p s c
+    (operand_pathOK2 (F := F) wf cfg hns hinj regexOk limit p hp ih st1 lo hlo c hc).2
+
+include hns in
+/-- `'lit' op P`, all six operators -/
+theorem buildB2_cmpStrL (op : String) (hop : op ∈ cmpOps) (s : String) (p : Ast)
+    (hp : Frag2 true p) (ih : BuildP2 (F := F) d cfg regexOk limit p) :
+    BuildB2 (F := F) d cfg regexOk limit (.oper op (.str s) p) := by
+  intro fl st o h
+  obtain ⟨st1, lo, ro, hlo, hro, hq, hpr⟩ :=
+    build_cmp_inv regexOk limit true false op hop (.str s) p fl st o h
+  obtain ⟨hlq, hlp⟩ := build_str_inv regexOk limit true false s _ _ lo hlo
+  have hrp : PropsOK ro.props := (ih {} lo.st ro hro).1
+  refine ⟨by rw [hpr, hlp]; exact propsOK_or _ _ propsOK_empty hrp, fun c hc => ?_⟩
+  rw [hq, hlq]
+  exact predOK_cmpStrL d cfg op hop ro.q p s c
+    (operand_pathOK2 (F := F) wf cfg hns hinj regexOk limit p hp ih lo.st ro hro c hc).2
+
 omit wf hinj in
 theorem buildB2_not (pfx : String) (b : Ast) (ih : BuildB2 (F := F) d cfg regexOk limit b) :
     BuildB2 (F := F) d cfg regexOk limit (.call "not" pfx (.acons b .anil)) := by
@@ -637,6 +686,16 @@ theorem build_frag2 (k : Bool) (e : Ast) (he : Frag2 k e) :
         (fun st o hb => (buildStr_lit cfg regexOk limit s).buildArg cfg regexOk limit {} st o hb)
         (fun st o hb => ⟨((ihq.1 rfl).1 {} st o hb).1,
           buildArg_path wf cfg hns hinj regexOk limit q hq hflatq (ihq.1 rfl).1 st o hb⟩)⟩
+  | cmpPath op p q hop hp hq ihp ihq =>
+    exact ⟨(fun h => nomatch h),
+      fun _ => buildB2_cmpPath wf cfg hns hinj regexOk limit op hop p q hp hq (ihp.1 rfl).1
+        (ihq.1 rfl).1⟩
+  | cmpStrR op p s hop hp ih =>
+    exact ⟨(fun h => nomatch h),
+      fun _ => buildB2_cmpStrR wf cfg hns hinj regexOk limit op hop p s hp (ih.1 rfl).1⟩
+  | cmpStrL op s p hop hp ih =>
+    exact ⟨(fun h => nomatch h),
+      fun _ => buildB2_cmpStrL wf cfg hns hinj regexOk limit op hop s p hp (ih.1 rfl).1⟩
 
 end
 
